@@ -148,6 +148,14 @@ impl InputList {
             } else {
                 0
             };
+            // Everything downstream assumes UTF-8; check once here rather than at each use.
+            if let Ok(ok_ev) = &ev {
+                if std::str::from_utf8(ok_ev.as_ref()).is_err() {
+                    return Err(SvgdxError::ParseError(format!(
+                        "Input is not valid UTF-8 near line {src_line}"
+                    )));
+                }
+            }
             match &ev {
                 Ok(Event::Eof) => break, // exits the loop when reaching end of file
                 Ok(Event::Text(t)) => {
